@@ -38,6 +38,20 @@ type c16Step struct {
 	// Spell: spelling of the account field of a proof message: "" canonical lower-case bech32 | upper (the all-upper-case
 	// spelling bech32 also accepts: same address bytes, another string)
 	Spell string `json:"spell,omitempty"`
+	// Acct replaces the account of a proof message by an address nobody holds a key for: zero20 (twenty zero bytes) |
+	// zero32 (a 32-byte address ending in twenty zero bytes); "" = the target key's own address
+	Acct string `json:"acct,omitempty"`
+}
+
+// c16ProofAccount is the account a proof step names.
+func c16ProofAccount(st c16Step) sdk.AccAddress {
+	switch st.Acct {
+	case "zero20":
+		return sdk.AccAddress(make([]byte, 20))
+	case "zero32":
+		return sdk.AccAddress(append(bytes.Repeat([]byte{0x11}, 12), make([]byte, 20)...))
+	}
+	return chain.ExtraKey(st.Target).Acc()
 }
 
 type c16Case struct {
@@ -71,7 +85,7 @@ func c16World() chain.World {
 
 func genC16(t *rapid.T) c16Case {
 	cs := c16Case{}
-	sigs := []string{"valid", "valid", "valid", "otherkey", "othermsg", "truncated", "extended", "uppercase", "v27", "random", "malleated", "no0x"}
+	sigs := []string{"valid", "valid", "valid", "otherkey", "othermsg", "truncated", "extended", "uppercase", "v27", "random", "malleated", "no0x", "r0", "highr", "v4", "zeros"}
 	for n := rapid.IntRange(2, 10).Draw(t, "nsteps"); n > 0; n-- {
 		s := c16Step{Submitter: rapid.IntRange(0, 5).Draw(t, "submitter"), Target: rapid.IntRange(0, c16Targets-1).Draw(t, "target")}
 		if rapid.IntRange(0, 7).Draw(t, "isfund") == 0 {
@@ -98,6 +112,11 @@ func genC16(t *rapid.T) c16Case {
 			s.Sig = rapid.SampledFrom(sigs).Draw(t, "sig")
 			if rapid.IntRange(0, 3).Draw(t, "spell") == 0 {
 				s.Spell = "upper"
+			}
+			if rapid.IntRange(0, 5).Draw(t, "nokeyaccount") == 0 {
+				// an address nobody can sign for, typically with a signature nothing can be recovered from
+				s.Acct = rapid.SampledFrom([]string{"zero20", "zero32"}).Draw(t, "acct")
+				s.Sig = rapid.SampledFrom([]string{"r0", "highr", "v4", "zeros", "valid", "random"}).Draw(t, "nokeysig")
 			}
 		}
 		cs.Steps = append(cs.Steps, s)
@@ -126,6 +145,15 @@ func c16Signature(target chain.Key, kind string) string {
 	case "random":
 		sig = crypto.Keccak256(append(hash, target.Addr.Bytes()...))
 		sig = append(sig, append(crypto.Keccak256(sig), 0)...)
+	case "r0": // 65 bytes, but no public key can be recovered from it
+		sig = append(append(make([]byte, 32), leftPad32([]byte{1})...), 0)
+	case "highr":
+		sig = append(append(leftPad32(secp256k1N.Bytes()), leftPad32([]byte{1})...), 0)
+	case "v4":
+		sig = append([]byte{}, sig...)
+		sig[64] = 4
+	case "zeros":
+		sig = make([]byte, 65)
 	case "malleated":
 		s := new(big.Int).SetBytes(sig[32:64])
 		s.Sub(secp256k1N, s)
@@ -211,7 +239,7 @@ func runC16(cs c16Case) *Outcome {
 		coins := sdk.NewCoins(sdk.NewCoin(chain.Denom, sdkmath.NewInt(1000)))
 		switch st.Kind {
 		case "proof":
-			account := target.Acc().String()
+			account := c16ProofAccount(st).String()
 			if st.Spell == "upper" {
 				account = strings.ToUpper(account)
 			}
@@ -279,7 +307,11 @@ func runC16(cs c16Case) *Outcome {
 		}
 		pre, post := tr.Pre.(*c16Snap), rec.End.(*c16Snap)
 		succeeded := tr.Res.Code == 0
-		hadProof := c16HasProof(pre.Vauth, target)
+		proofAcc := target.Acc()
+		if st.Kind == "proof" {
+			proofAcc = c16ProofAccount(st)
+		}
+		hadProof := c16HasProofAcc(pre.Vauth, proofAcc)
 		switch st.Kind {
 		case "proof":
 			paid := new(big.Int).Sub(pre.Bal[st.Submitter], post.Bal[st.Submitter])
@@ -300,7 +332,10 @@ func runC16(cs c16Case) *Outcome {
 				if burnt.Cmp(fee) != 0 {
 					o.dev("", "step %d (%+v): supply shrank by %s, expected exactly the fixed fee %s", si, st, burnt, fee)
 				}
-				if !c16HasProof(post.Vauth, target) {
+				if st.Acct != "" {
+					o.dev("", "step %d (%+v): a proof was accepted for %s, an address nobody holds the key of", si, st, proofAcc)
+				}
+				if !c16HasProofAcc(post.Vauth, proofAcc) {
 					o.dev("", "step %d (%+v): accepted submission stored no proof", si, st)
 				}
 				if st.Sig != "valid" && st.Sig != "malleated" {
@@ -396,8 +431,10 @@ func runC16(cs c16Case) *Outcome {
 
 func rapidBoolFromIndex(i int) bool { return i%2 == 0 }
 
-func c16HasProof(kvs []chain.KV, target chain.Key) bool {
-	key := vauthtypes.KeyProofExternalOwnedAccountByAddress(target.Acc())
+func c16HasProof(kvs []chain.KV, target chain.Key) bool { return c16HasProofAcc(kvs, target.Acc()) }
+
+func c16HasProofAcc(kvs []chain.KV, acc sdk.AccAddress) bool {
+	key := vauthtypes.KeyProofExternalOwnedAccountByAddress(acc)
 	for _, kv := range kvs {
 		if bytes.Equal(kv.K, key) {
 			return true
